@@ -4,7 +4,12 @@
 * real operations are run with a *recording* generator (duck-typed `rng`) and a recording proxy for
   `batchie.retrospective.heapq`; the recorded values are the choice log handed to the Lean model;
 * `execute(case)` is deterministic in the case (screen, parameters, numpy seed), so a case replays exactly;
-* `oracles_c11` / `oracles_c13` evaluate the property clauses on the implementation's observable output only.
+* `oracles_c11` / `oracles_c13` evaluate the property clauses on the implementation's observable output only; the INPUT side of
+  every comparison is a `RawView` built from the raw case description, not a batchie `Screen`;
+* besides the random screens, `directed_cases` builds the input families on which realistic edits go wrong but which small
+  random screens do not reach (big plates for the hold-out counts, vehicle-only rows, >= 11 generated plates, odd plate counts
+  over several top-bottom iterations, exact stopping sums, size ties, several samples to drop); `clause_counters` records in the
+  evidence how often each clause was actually exercised.
 
 What is canonicalised: nothing is reordered -- every operation is deterministic given the log, so the output rows are
 compared in order (names, doses as exact rationals, sample, plate, observation bits, mask, plate ids).  Not compared:
@@ -317,14 +322,20 @@ def gen_case(rng, op):
 #   nplate-multi               several samples below the minimum interleaved (in id order) with samples that stay
 #   pair-arity                 pairwise generator at arity 3 and 1
 
-def _plate_names(rng, k):
-    """k distinct plate names; some collide in their first 17 characters when written into a narrow buffer"""
+def _plate_names(rng, k, generated_ok=True):
+    """k distinct plate names; some collide in their first 17 characters when written into a narrow buffer.
+    (`generated_ok=False` for the inputs of generators: an observed input plate that is already called `generated_plate_<n>`
+    collides with a generated name and the constructor refuses the mixed plate -- behaviour, but a wasted case.)"""
     style = rng.choice(["pl", "generated", "generated", "generated", "mixed"])   # smoothers mostly run on generated plates
+    if not generated_ok:
+        style = rng.choice(["pl", "mixed"])
     if style == "pl":
         return ["pl%d" % i for i in rng.sample(range(0, 40), k)]
     if style == "generated":
         return ["generated_plate_%d" % i for i in rng.sample(range(0, 3 * k + 12), k)]
     pool = ["w%d" % i for i in range(k)] + rng.sample(PLATE_POOL, min(len(PLATE_POOL), k))
+    if not generated_ok:
+        pool = [x for x in pool if not x.startswith("generated_plate_")]
     return rng.sample(sorted(set(pool)), k)
 
 
@@ -440,12 +451,13 @@ def d_seg11(rng):
     if style < 0.5:      # a few samples that split into many plates
         samples = _samples(rng, rng.randint(2, 4))
         sizes = {smp: rng.choice([mx, mx + 1, 2 * mx, 2 * mx + 1, 3 * mx, 4 * mx - 1 if mx > 1 else 4, 5 * mx + 1]) for smp in samples}
-        while sum(-(-n // mx) for n in sizes.values()) < 11:
+        target = rng.randint(11, 18)
+        while sum(-(-n // mx) for n in sizes.values()) < target:
             sizes[rng.choice(samples)] += mx
     else:                # many samples at or below the limit (one plate each) and a few above
         samples = _samples(rng, rng.randint(11, 14))
         sizes = {smp: rng.choice([1, mx, mx, max(1, mx - 1), mx + 1]) for smp in samples}
-    names = _plate_names(rng, 4)
+    names = _plate_names(rng, 4, generated_ok=False)
     rows = []
     for smp, n in sizes.items():
         for _ in range(n):
@@ -461,7 +473,7 @@ def d_pair11(rng):
     ctrl = rng.choice(["", "control", "dmso"])
     treats = rng.sample([t for t in TREAT_POOL if t != ctrl], rng.randint(5, 7))
     samples = _samples(rng, rng.randint(3, 5))
-    names = _plate_names(rng, 4)
+    names = _plate_names(rng, 4, generated_ok=False)
     rows, tn, td = [], [], []
     for smp in samples:
         combos = set()
@@ -1085,12 +1097,12 @@ def clause_counters(res, case, o):
 def run_property(ctx, res, prop, oracle, rule):
     res.rule = rule
     rng = ctx.subrng(prop, "prep")
-    per_op = ctx.scale(62, 600, 220)
+    per_op = ctx.scale(60, 600, 220)
     todo = []
     for op in OPS:
         for _ in range(per_op):
             todo.append(("random", gen_case(rng, op)))
-    todo += directed_cases(ctx.subrng(prop, "directed"), ctx.scale(1, 8, 4))
+    todo += directed_cases(ctx.subrng(prop, "directed"), ctx.scale(2, 8, 4))
     lines, expect, cases = [], [], []
     for fam, case in todo:
         op = case["op"]
